@@ -258,6 +258,45 @@ pub struct MolCase {
 }
 
 /// molecule energy = sum over particle pairs; trimer particles carry sigma = 2 radius, cutoff 3.5
+/// arbitrary molecules (any number of particles): energy = sum over particle pairs, in
+/// either order, inside a thread pool
+pub fn check_big_molecule(seed: u64, n1: usize, n2: usize, st: &mut Stats) {
+    use rand::Rng;
+    st.eval();
+    let mut rng = crate::common::rng_for(seed, 1313);
+    let cutoff = if rng.gen_bool(0.7) { Some(3.5) } else { None };
+    let mut mk = |n: usize, off: f64| LJShape2 {
+        name: "Random".into(),
+        items: (0..n).map(|_| LJ2 { position: Point2::new(off + rng.gen_range(-4., 4.), rng.gen_range(-4., 4.)), sigma: rng.gen_range(0.5, 1.5), epsilon: rng.gen_range(0.5, 2.), cutoff }).collect(),
+    };
+    let a = mk(n1, 0.);
+    let b = mk(n2, 9.);
+    let case = json!({"seed": seed, "n1": n1, "n2": n2});
+    st.nontrivial(hash64(&[79, seed, n1 as u64, n2 as u64]));
+    for (x, y, name) in [(&a, &b, "a.energy(b)"), (&b, &a, "b.energy(a)")].iter() {
+        let e = x.energy(y);
+        let mut sum = 0.;
+        let mut mag = 0.;
+        for p in x.items.iter() {
+            for qq in y.items.iter() {
+                let v = p.energy(qq);
+                sum += v;
+                mag += v.abs();
+            }
+        }
+        if !((e - sum).abs() <= 1e-11 * mag + 1e-300) {
+            st.violation(Violation {
+                kind: "c13.bigmol".into(),
+                signature: "LJShape2::energy:not-sum-over-particle-pairs".into(),
+                case: case.clone(),
+                detail: json!({"call": name, "molecule_energy": e, "sum_of_pairs": sum, "particles": [x.items.len(), y.items.len()], "threads": rayon::current_num_threads()}),
+            });
+            return;
+        }
+    }
+    st.count("molecules_with_many_particles");
+}
+
 pub fn check_molecule(c: &MolCase, st: &mut Stats) {
     st.eval();
     let base = if c.circle { LJShape2::circle() } else { LJShape2::from_trimer(c.radius, c.angle, c.distance) };
@@ -339,7 +378,7 @@ pub fn gen_mol<R: Rng>(rng: &mut R) -> MolCase {
 }
 
 pub fn run(ctx: &Ctx) {
-    ctx.set_rule("particle pairs: sigma 0.1-5 (and 1, 2, and all length scales 1e-9..1e3), epsilon 0.1-5, cutoff None/3.5/1.5-6, like and unlike pairs, r log-uniform 0.5-10 sigma and at the cutoff +-3 ulps / +-1e-6, random directions and origins, optional common rigid motion or reflection; checked: 12-6 law (1e-12 of the term scale) for like pairs, symmetry, exact zero at/after the cutoff, continuity just inside it, invariance under the motion; uncut minimum located by golden-section search on library values; molecule energy = sum of its particle-pair energies for circles and trimers over the CLI's ranges; non-trivial = separation inside the cutoff; distinct by quantised (r, sigma, epsilon, cutoff)");
+    ctx.set_rule("particle pairs: sigma 0.1-5 (and 1, 2, and all length scales 1e-9..1e3), epsilon 0.1-5, cutoff None/3.5/1.5-6, like and unlike pairs, r log-uniform 0.5-10 sigma and at the cutoff +-3 ulps / +-1e-6, random directions and origins, optional common rigid motion or reflection; checked: 12-6 law (1e-12 of the term scale) for like pairs, symmetry, exact zero at/after the cutoff, continuity just inside it, invariance under the motion; uncut minimum located by golden-section search on library values; molecule energy = sum of its particle-pair energies for circles and trimers over the CLI's ranges and for arbitrary molecules of 1..129 particles (both orders, inside the thread pool); non-trivial = separation inside the cutoff; distinct by quantised (r, sigma, epsilon, cutoff)");
     let n = ctx.tier.pick(30_000u64, 3_000_000u64);
     par_shards(ctx, 13, 64, |_, rng, st| {
         for _ in 0..n {
@@ -348,6 +387,11 @@ pub fn run(ctx: &Ctx) {
         }
         for _ in 0..n / 10 {
             check_molecule(&gen_mol(rng), st);
+        }
+        for k in 0..(n / 3000).max(4) {
+            let sizes = [1usize, 2, 3, 5, 17, 64, 70, 100, 129];
+            let (n1, n2) = (sizes[rng.gen_range(0, sizes.len())], sizes[rng.gen_range(0, sizes.len())]);
+            check_big_molecule(rng.gen::<u64>() ^ k, n1, n2, st);
         }
         for _ in 0..n / 200 {
             check_minimum(&MinCase { sigma: rng.gen_range(0.1, 5.), eps: rng.gen_range(0.1, 5.) }, st);
@@ -367,6 +411,11 @@ pub fn replay(ctx: &Ctx, kind: &str, case: &Value) {
         "c13.min" => {
             if let Ok(c) = serde_json::from_value::<MinCase>(case.clone()) {
                 check_minimum(&c, &mut st)
+            }
+        }
+        "c13.bigmol" => {
+            if let (Some(seed), Some(n1), Some(n2)) = (case["seed"].as_u64(), case["n1"].as_u64(), case["n2"].as_u64()) {
+                check_big_molecule(seed, n1 as usize, n2 as usize, &mut st)
             }
         }
         "c13.mol" => {
